@@ -6,7 +6,7 @@ usage: tools/file_seed.py <name> <patch.diff> <demo.py> <meta.json> <prop> [<pro
 Steps (all in a scratch worktree of /repo HEAD under /tmp, removed afterwards):
   1. the patch applies; 2. the repository's test suite still passes with it; 3. the demo exits 1 with the
   patch and 0 without; 4. each named check is run with VERIF_REPO pointing at the patched copy (quick tier).
-Writes seeded/<name>/{patch.diff, demo.py, meta.json}.  Evidence files touched by step 4 are restored from git.
+Writes seeded/<name>/{patch.diff, demo.py, meta.json}.  Step 4 writes its evidence to a scratch directory (VERIF_EVIDENCE_DIR), never to /verif/evidence.
 """
 import json
 import os
@@ -49,7 +49,7 @@ def main():
         result["repo_head"] = head
         checks = {}
         for p in props:
-            env2 = dict(os.environ, VERIF_REPO=wt)
+            env2 = dict(os.environ, VERIF_REPO=wt, VERIF_EVIDENCE_DIR=wt + "_ev")
             rc, out = sh(f"./check {p} --tier quick", cwd=VERIF, env=env2)
             lines = [l for l in out.splitlines() if l.startswith("VIOLATION") or "sub-check=" in l or "HARNESS" in l]
             checks[p] = {"exit": rc, "detected": rc == 1, "lines": lines[:6]}
@@ -74,7 +74,7 @@ def main():
         result["checks_quick"] = checks
     finally:
         sh(f"git worktree remove --force {wt}", cwd="/repo")
-        sh("git checkout -q -- evidence", cwd=VERIF)
+        shutil.rmtree(wt + "_ev", ignore_errors=True)
     ok = "passed" in result["repo_tests_with_patch"] and "failed" not in result["repo_tests_with_patch"] and result["demo_exit_with_patch"] == 1 and result["demo_exit_without_patch"] == 0
     print(json.dumps({k: v for k, v in result.items() if k != "checks_quick"}))
     if not ok:
